@@ -19,7 +19,14 @@ from harness import common, models, gen
 from harness import c11
 from harness.c11 import INSTANCE, is_wf, is_connected, impl_out, impl_apply, canon_epis
 
-THEOREMS = ['C12_reify_edges_top', 'C12_dereify_edges_top', 'C12_reify_attributes_top', 'C12_indicate_branches_top']
+THEOREMS = ['C12_reify_edges_top', 'C12_dereify_edges_top', 'C12_reify_attributes_top', 'C12_indicate_branches_top',
+            'C12_reify_edges_total', 'C12_dereify_edges_total', 'C12_reify_attributes_total', 'C12_indicate_branches_total',
+            'C12_indicate_branches_only_assert', 'C12_wf_is_node_graph', 'C12_sources_are_variables_reify_edges',
+            'C12_sources_are_variables_dereify_edges', 'C12_sources_are_variables_reify_attributes',
+            'C12_sources_are_variables_indicate_branches', 'C12_reify_attributes_no_attr', 'C12_reify_attributes_contract',
+            'C12_indicate_shape', 'C12_indicate_adds_one_per_push', 'C12_indicate_remove', 'C12_sample_wf',
+            'C12_connected_sound', 'C12_connected_reify_edges', 'C12_connected_dereify_edges',
+            'C12_connected_reify_attributes', 'C12_connected_indicate_branches', 'C12_every_program']
 
 NAMES = {1: 'reify_edges', 2: 'dereify_edges', 3: 'reify_attributes', 4: 'indicate_branches'}
 
@@ -187,6 +194,18 @@ def step_oracle(inf, code, h, o, case, prog, out):
             out.fails.append(('indicate', 'removing the inserted triples does not give back the input', where))
         elif (common.canon_graph(o)['epidata'] != common.canon_graph(h)['epidata'] or o.metadata != h.metadata):
             out.fails.append(('indicate', 'indicate_branches changed markers or metadata', where))
+        elif case['provenance'] == 'decoded' and len(set(h.triples)) == len(h.triples):
+            # `one top-role triple per nested node`: for a graph that still carries the markers of its text (decoded,
+            # possibly transformed, never edited) the nested nodes are those of the tree that encode writes.  Not judged
+            # when a degenerate table (source role = target role) made two EQUAL triples: they share one marker list
+            try:
+                tree = common.timed(inf.codec.parse, common.timed(inf.codec.encode, h, seconds=5), seconds=5)
+                nested = len(list(tree.nodes())) - 1
+            except Exception:
+                nested = None            # judged by the round-trip oracle
+            if nested is not None and nested != got:
+                out.fails.append(('indicate', f'indicate_branches added {got} {top_role} triples but the text of its input '
+                                  f'has {nested} nested nodes', where))
         out.stats['step:indicate_branches-changed' if want else 'step:indicate_branches-noop'] += 1
         out.stats['indicated-branches'] += want
     elif code == 1:
@@ -283,7 +302,10 @@ def final_oracle(inf, g, o, case, prog, out, ctx):
         else:
             out.stats['skipped:source-not-variable(table mentions :instance)'] += 1
     if not is_connected(o):
-        out.fails.append(('disconnected', 'the result is not connected from its top', where))
+        if ctx.inst_free:
+            out.fails.append(('disconnected', 'the result is not connected from its top', where))
+        else:
+            out.stats['skipped:disconnected(table mentions :instance)'] += 1
     try:
         text = common.timed(codec.encode, o, seconds=5)
     except common.Timeout:
@@ -432,6 +454,11 @@ def run(chk):
                 '(thorough) of the other orders x models {default, AMR live, mini-AMR, random tables incl. ambiguous ones}. '
                 'A case is distinct per (model, graph, program) and non-trivial when the program changes the triples.')
     chk.require_theorems('Properties.C12', THEOREMS)
+    chk.assumptions.append('connectivity is proved for the declarative notion connectedP; the boolean procedure connected_b '
+                           'is proved sound, not complete')
+    chk.assumptions.append('the serialisation clause (encode, then decode, gives the graph back up to the model\'s single '
+                           'deinversion of edges) is judged by the oracle only, under the hypotheses of C06: the model deinverts, '
+                           'every role is plain with an inverted -of spelling, every Push names a variable')
     common.use_repo()
     quick = chk.tier == 'quick'
     rng = chk.rng
@@ -538,7 +565,7 @@ def replay(obj):
         text = codec.encode(h, indent=None)
         print('encode     :', text)
         g2 = codec.decode(text)
-        print('decode     :', g2.triples, ' equal:', g2 == h and sorted(g2.triples, key=sort_key) == sorted(h.triples, key=sort_key))
+        print('decode     :', g2.triples, ' equal up to deinversion of edges:', graph_equal(m, g2, h))
     except Exception as e:
         print('round trip raises', repr(e))
     return 0
